@@ -134,6 +134,7 @@ type Netceptor struct {
 	reservedServices         map[string]func(*MessageData) error
 	serviceAdsLock           *sync.RWMutex
 	serviceAdsReceived       map[string]map[string]*ServiceAdvertisement
+	serviceAdsCanceled       map[string]map[string]time.Time
 	sendServiceAdsChan       chan time.Duration
 	backendWaitGroup         sync.WaitGroup
 	backendCount             int
@@ -332,6 +333,7 @@ func NewWithConsts(ctx context.Context, nodeID string,
 		nameHashes:               make(map[uint64]string),
 		serviceAdsLock:           &sync.RWMutex{},
 		serviceAdsReceived:       make(map[string]map[string]*ServiceAdvertisement),
+		serviceAdsCanceled:       make(map[string]map[string]time.Time),
 		sendServiceAdsChan:       nil,
 		backendWaitGroup:         sync.WaitGroup{},
 		backendCount:             0,
@@ -710,11 +712,13 @@ func (s *Netceptor) RemoveLocalServiceAdvertisement(service string) error {
 	if ok {
 		delete(n, service)
 	}
+	cancelTime := time.Now()
+	s.noteServiceAdCanceled(s.nodeID, service, cancelTime)
 	sa := &serviceAdvertisementFull{
 		ServiceAdvertisement: &ServiceAdvertisement{
 			NodeID:   s.nodeID,
 			Service:  service,
-			Time:     time.Now(),
+			Time:     cancelTime,
 			ConnType: connType,
 			Tags:     nil,
 		},
@@ -727,6 +731,18 @@ func (s *Netceptor) RemoveLocalServiceAdvertisement(service string) error {
 	s.flood(data, "")
 
 	return nil
+}
+
+// Remembers when a service was withdrawn. The caller must hold serviceAdsLock.
+func (s *Netceptor) noteServiceAdCanceled(nodeID string, service string, when time.Time) {
+	c, ok := s.serviceAdsCanceled[nodeID]
+	if !ok {
+		c = make(map[string]time.Time)
+		s.serviceAdsCanceled[nodeID] = c
+	}
+	if when.After(c[service]) {
+		c[service] = when
+	}
 }
 
 // Send a single service broadcast.
@@ -1747,7 +1763,18 @@ func (s *Netceptor) handleServiceAdvertisement(data []byte, receivedFrom string)
 	if keepCur {
 		return nil
 	}
+	// Anything not newer than the last withdrawal we know of is old news: an advertisement that was
+	// overtaken by its withdrawal must not bring the service back, and a withdrawal we have already
+	// processed must not be flooded again (in a mesh with cycles that never stops).
+	if canceledAt, ok := s.serviceAdsCanceled[si.NodeID][si.Service]; ok && !si.Time.After(canceledAt) {
+		if len(n) == 0 {
+			delete(s.serviceAdsReceived, si.NodeID)
+		}
+
+		return nil
+	}
 	if si.Cancel {
+		s.noteServiceAdCanceled(si.NodeID, si.Service, si.Time)
 		delete(s.serviceAdsReceived[si.NodeID], si.Service)
 		if len(s.serviceAdsReceived[si.NodeID]) == 0 {
 			delete(s.serviceAdsReceived, si.NodeID)
